@@ -505,10 +505,23 @@ def monitor(out) -> list[Violation]:
             vs.append(Violation(what=f"stage {e['ref']} was marked SKIPPED by a forward jump and executed a task afterwards",
                                 signature="skipped-stage-executed", replay=_replay(out, {"ledger_entry": e})))
     if crashes == 0:
+        push_seq = {int(r["ent"]): r["seq"] for r in audit if r["kind"] == "push"}
+        lm = out["ledger_marks"]
         for (ref, t, it), n in per_iter.items():
             if n > 1:
-                vs.append(Violation(what=f"task {ref}/{t} was executed {n} times within one loop iteration (iteration {it} of its stage)",
-                                    signature="twice-per-iteration", replay=_replay(out)))
+                # was one of the executions triggered by a RunTask row pushed BEFORE the re-arm that began this iteration?
+                stale = False
+                for li, e in enumerate(out["ledger"]):
+                    if (e["ref"], e["task"]) == (ref, t) and bisect.bisect_left(rearms.get(ref, []), e["audit_seq"] + 1) == it and it > 0:
+                        ai = bisect.bisect_right(lm, li)
+                        a = out["actions"][ai] if ai < len(out["actions"]) else None
+                        if a and a[0] in ("D", "X") and push_seq.get(a[1], 1 << 60) < rearms[ref][it - 1]:
+                            stale = True
+                vs.append(Violation(
+                    what=f"task {ref}/{t} was executed {n} times within one loop iteration (iteration {it} of its stage)"
+                         + (": a RunTask row of the previous iteration, still queued when the jump re-armed the stage, became valid again "
+                            "when the new iteration set the task RUNNING, and both RunTask rows were delivered before the first CompleteTask" if stale else ""),
+                    signature="twice-per-iteration" + (":stale-RunTask" if stale else ""), replay=_replay(out)))
                 break
     if src is not None and case.get("policy") == "fifo" and out["quiescent"] and crashes == 0 and meta.get("backward"):
         tgt = meta["target"]
